@@ -348,11 +348,11 @@ theorem collect_tuple_l (n m : Nat)
 theorem props_rep (hI : ∀ i, inInt32 i = true → (E.vld.int32 (.int i)).accepted = true)
     (hU : ∀ i, inUInt31 i = true → (E.vld.uint31 (.int i)).accepted = true) (m : Nat)
     (IH : ∀ n T A j, annOK M E bad n T A = true → validTyC M m T j = true → Wf j → Reads E bad T A j)
-    (props : List (Name × Bool × Ty)) (cl : Cls) (hc : clsCovers M E bad props cl = true)
+    (n0 : Nat) (props : List (Name × Bool × Ty)) (cl : Cls) (hc : clsCoversW (annOK M E bad n0) M E bad n0 props cl = true)
     (hf : E.pkg.findCls cl.name = some cl) (kvs : List (Name × Json))
     (hv : validPropsC (validTyC M m) props kvs = true) (hw : Wf (.obj kvs)) :
     ∃ v k, rep E bad k (.cls cl.name) v (.obj kvs) = true := by
-  simp only [clsCovers, Bool.and_eq_true, Bool.not_eq_true', List.all_eq_true, List.any_eq_true, beq_iff_eq] at hc
+  simp only [clsCoversW, Bool.and_eq_true, Bool.not_eq_true', List.all_eq_true, List.any_eq_true, beq_iff_eq] at hc
   obtain ⟨⟨hnb, hpf⟩, hff⟩ := hc
   simp only [validPropsC, Bool.and_eq_true, List.all_eq_true, List.any_eq_true, beq_iff_eq] at hv
   obtain ⟨hkeys, hprops⟩ := hv
@@ -386,14 +386,14 @@ theorem props_rep (hI : ∀ i, inInt32 i = true → (E.vld.int32 (.int i)).accep
       have hpn : p.1 = f.wireS := by
         have := List.find?_some hfind
         simpa using this
-      simp only [fieldCovers, Bool.and_eq_true, Bool.or_eq_true, Bool.not_eq_true', beq_iff_eq] at hfc
+      simp only [fieldCoversW, Bool.and_eq_true, Bool.or_eq_true, Bool.not_eq_true', beq_iff_eq] at hfc
       obtain ⟨⟨⟨hann, hopt⟩, hfaith⟩, hvld⟩ := hfc
       have hp := hprops p hpm
       rw [hpn] at hp
       cases hl : Json.lookup kvs f.wireS with
       | some x =>
         simp only [hl] at hp
-        obtain ⟨v, k, hr, hs⟩ := IH linkFuel p.2.2 f.ty x hann hp (hw.lookup hl)
+        obtain ⟨v, k, hr, hs⟩ := IH n0 p.2.2 f.ty x hann hp (hw.lookup hl)
         refine ⟨v, k, ?_, vld_accepts M E hI hU cl.name f p.2.2 p.2.1 m x v hvld hp hs⟩
         unfold FieldReads
         simp only [hl]
@@ -412,7 +412,7 @@ theorem props_rep (hI : ∀ i, inInt32 i = true → (E.vld.int32 (.int i)).accep
           | true =>
             have hx : x = .null := by cases x <;> simp [Json.isNull] at hxn ⊢
             subst hx
-            have hnl := nullish_of_valid M linkFuel m p.2.2 hp
+            have hnl := nullish_of_valid M n0 m p.2.2 hp
             rcases hfaith with (hh | hh) | hh
             · rw [hnl] at hh; cases hh
             · simp [hh]
@@ -459,6 +459,25 @@ theorem valid_rep (hS : structsCover M E bad = true)
     unfold validTyC at hv
     simp only [Bool.and_eq_true, Bool.not_eq_true'] at ha
     obtain ⟨hnb, ha⟩ := ha
+    -- an object with an explicit property list, read as the generated class that covers the list
+    have obj_rep : ∀ (props : List (Name × Bool × Ty)) (kvs : List (Name × Json)),
+        objCovered (annOK M E bad n) M E bad n props A = true → j = .obj kvs → validPropsC (validTyC M m) props kvs = true →
+        ∃ u, u ∈ alts A ∧ ∃ v k, rep E bad k u v (.obj kvs) = true := by
+      intro props kvs hoc hj hvp
+      simp only [objCovered, List.any_eq_true] at hoc
+      obtain ⟨u, hu, h2⟩ := hoc
+      cases u <;> try (simp at h2; done)
+      rename_i c
+      simp only [Bool.and_eq_true, Bool.not_eq_true'] at h2
+      cases hcl : E.pkg.findCls c with
+      | none => simp [hcl] at h2
+      | some cl =>
+        simp only [hcl] at h2
+        have hcn : cl.name = c := by
+          have := List.find?_some hcl
+          simpa using this
+        obtain ⟨v, k, hr⟩ := props_rep M E bad hI hU m IH n props cl h2.2 (by rw [hcn]; exact hcl) kvs hvp (hj ▸ hw)
+        exact ⟨.cls c, hu, v, k, by rw [← hcn]; exact hr⟩
     -- a reading at one alternative of A is a reading at A
     have viaAlt : ∀ {u : PyTy} {v : PyVal} {k : Nat}, u ∈ alts A → rep E bad k u v j = true → vshape T j v → Reads E bad T A j :=
       fun hu hr hs => ⟨_, _, rep_of_alt E bad hnb hu hr, hs⟩
@@ -484,14 +503,23 @@ theorem valid_rep (hS : structsCover M E bad = true)
         exact viaAlt hu (show rep E bad 1 (.literal vs) (.str x) (.str x) = true by simp [rep, h2.1, hmem]) rfl
     | intLit i => simp at ha
     | boolLit b => simp at ha
-    | and ts => simp at hv
-    | lit props =>
-      simp only [Bool.and_eq_true] at ha
+    | and ts =>
+      simp only [Bool.and_eq_true, Bool.not_eq_true'] at ha
       cases j <;> try (simp at hv; done)
       rename_i kvs
-      obtain ⟨hbm, hu⟩ := hasAlt_sound bad ha.2
-      exact viaAlt hu (show rep E bad 1 .any (PyVal.ofJson (.obj kvs)) (.obj kvs) = true by
-        simp [rep, hbm, isOfJson_ofJson]) trivial
+      obtain ⟨u, hu, v, k, hr⟩ := obj_rep (andProps M ts) kvs ha.2 rfl hv
+      exact viaAlt hu hr trivial
+    | lit props =>
+      cases j <;> try (simp at hv; done)
+      rename_i kvs
+      by_cases hpe : props.isEmpty = true
+      · simp only [hpe, if_true] at ha
+        obtain ⟨hbm, hu⟩ := hasAlt_sound bad ha
+        exact viaAlt hu (show rep E bad 1 .any (PyVal.ofJson (.obj kvs)) (.obj kvs) = true by
+          simp [rep, hbm, isOfJson_ofJson]) trivial
+      · simp only [hpe, Bool.false_eq_true, if_false] at ha hv
+        obtain ⟨u, hu, v, k, hr⟩ := obj_rep props kvs ha rfl hv
+        exact viaAlt hu hr trivial
     | or ts =>
       simp only [List.any_eq_true] at hv
       simp only [List.all_eq_true] at ha
@@ -620,7 +648,7 @@ theorem valid_rep (hS : structsCover M E bad = true)
                     have := List.find?_some hcl
                     simpa using this
                   have hcl' : E.pkg.findCls cl.name = some cl := by rw [hcn]; exact hcl
-                  obtain ⟨v, k, hr⟩ := props_rep M E bad hI hU m IH (propsOf (flatten M s)) cl hsc hcl' kvs hv hw
+                  obtain ⟨v, k, hr⟩ := props_rep M E bad hI hU m IH linkFuel (propsOf (flatten M s)) cl hsc hcl' kvs hv hw
                   rw [hcn, hsn] at hr
                   exact viaAlt hu hr trivial
               | none =>
@@ -648,7 +676,7 @@ theorem valid_object_rep (hS : structsCover M E bad = true)
     cases j <;> try (simp at hv; done)
     rename_i kvs
     simp only [hne, Bool.false_eq_true, if_false] at hv
-    exact props_rep M E bad hI hU m (valid_rep M E bad hS hI hU m) props cl hc hf kvs hv hw
+    exact props_rep M E bad hI hU m (valid_rep M E bad hS hI hU m) linkFuel props cl hc hf kvs hv hw
 
 
 theorem findCls_name' {c : Name} {cl : Cls} (h : E.pkg.findCls c = some cl) : cl.name = c := by
@@ -729,7 +757,7 @@ theorem valid_struct_rep (hS : structsCover M E bad = true)
     have hn := findCls_name' E hcl
     cases j <;> try (simp at hv; done)
     rename_i kvs
-    obtain ⟨v, k, hr⟩ := props_rep M E bad hI hU m (valid_rep M E bad hS hI hU m) (propsOf (flatten M s)) cl hsc (by rw [hn]; exact hcl) kvs hv hw
+    obtain ⟨v, k, hr⟩ := props_rep M E bad hI hU m (valid_rep M E bad hS hI hU m) linkFuel (propsOf (flatten M s)) cl hsc (by rw [hn]; exact hcl) kvs hv hw
     exact ⟨v, k, by rw [← hn]; exact hr⟩
 
 /-! ### closed validity is validity -/
@@ -802,7 +830,10 @@ theorem validTyC_validTy : ∀ (n : Nat) (T : Ty) (j : Json), validTyC M n T j =
       simp only [List.any_eq_true] at h ⊢
       obtain ⟨a, ha, hva⟩ := h
       exact ⟨a, ha, ih _ _ hva⟩
-    | and ts => simp at h
+    | and ts =>
+      cases j <;> try (simp at h; done)
+      rename_i kvs
+      exact validPropsC_imp ih _ _ h
     | lit props =>
       cases j <;> try (simp at h; done)
       rename_i kvs
